@@ -4,6 +4,7 @@ import (
 	"context"
 	"fmt"
 	"io"
+	"strings"
 	"sync"
 	"sync/atomic"
 	"time"
@@ -19,7 +20,7 @@ import (
 // call/return history is checked per path against a register model with porcupine.
 
 type c14In struct {
-	Op   int // 0 put, 1 delete, 2 get
+	Op   int // 0 put, 1 delete, 2 get, 3 listed-by-a-walk (existence read)
 	Path string
 	Val  string
 }
@@ -62,6 +63,9 @@ var c14RegModel = porcupine.Model{
 				return st == "", st
 			}
 			return st != "", ""
+		case 3:
+			// a walk that ran over [call, return] listed (or did not list) the path: an existence read
+			return out.NotExist == (st == ""), st
 		default:
 			if out.NotExist {
 				return st == "", st
@@ -166,6 +170,7 @@ func c14RunRace(c *core.C, idx int) {
 			default:
 			}
 			seen := map[string]bool{}
+			wcall := clock.Add(1)
 			err := view.Walk(ctx, "", func(oi storage.ObjectInfo) error {
 				if seen[oi.Path()] {
 					c.Violationf("walk-duplicate-under-concurrency", fmt.Sprintf("case=%d", idx), "walk visited %q twice", oi.Path())
@@ -176,6 +181,13 @@ func c14RunRace(c *core.C, idx int) {
 			if err != nil {
 				c.Violationf("walk-error-under-concurrency", fmt.Sprintf("case=%d", idx), "walk: %v", err)
 			}
+			wret := clock.Add(1)
+			// every walk is one existence read per path, all over the same interval
+			mu.Lock()
+			for _, p := range paths {
+				history = append(history, porcupine.Operation{ClientId: clients, Input: c14In{Op: 3, Path: p}, Call: wcall, Output: c14Out{NotExist: !seen[p]}, Return: wret})
+			}
+			mu.Unlock()
 			walks++
 			time.Sleep(20 * time.Microsecond)
 		}
@@ -184,6 +196,67 @@ func c14RunRace(c *core.C, idx int) {
 	wg.Wait()
 	close(stop)
 	walkWG.Wait()
+	// quiescent point: nothing runs any more; what a walk lists must be exactly what stat finds, through the
+	// view and on the parent, for the root prefix and for a directory prefix
+	for _, q := range []struct {
+		name   string
+		b      storage.ReadBucket
+		prefix string
+		strip  string
+	}{{"view", view, "", ""}, {"parent", parent, "", "p/"}, {"parent-prefix", parent, "p", "p/"}, {"view-prefix", view, "a", ""}} {
+		listed := map[string]bool{}
+		if err := q.b.Walk(ctx, q.prefix, func(oi storage.ObjectInfo) error {
+			listed[strings.TrimPrefix(oi.Path(), q.strip)] = true
+			return nil
+		}); err != nil {
+			c.Violationf("walk-error-under-concurrency", fmt.Sprintf("case=%d", idx), "walk at rest: %v", err)
+		}
+		for _, p := range paths {
+			if q.name == "view-prefix" && !strings.HasPrefix(p, "a/") {
+				continue
+			}
+			_, serr := view.Stat(ctx, p)
+			if exists := serr == nil; exists != listed[p] {
+				c.Violation("walk-disagrees-with-stat-at-rest", fmt.Sprintf("bucket=%s prefix=%q", q.name, q.prefix),
+					fmt.Sprintf("after all %d clients finished, stat(%q) exists=%v but walk(%q) on %s lists=%v (case %d)", clients, p, exists, q.prefix, q.name, listed[p], idx), nil)
+			}
+			c.Count("quiescent_walk_stat_comparisons", 1)
+		}
+	}
+	// walk-vs-put rounds: one walk and one put of a NEW path released together; once both have returned, the
+	// bucket is at rest and a walk must list what stat finds (a listing cached by the overlapping walk must
+	// not outlive the put)
+	for round := 0; round < 40; round++ {
+		np := fmt.Sprintf("r/%d-%d", idx, round)
+		gate := make(chan struct{})
+		var rwg sync.WaitGroup
+		rwg.Add(2)
+		go func() {
+			defer rwg.Done()
+			<-gate
+			view.Walk(ctx, "", func(storage.ObjectInfo) error { return nil })
+		}()
+		go func() {
+			defer rwg.Done()
+			<-gate
+			storage.PutPath(ctx, view, np, []byte("x"))
+		}()
+		close(gate)
+		rwg.Wait()
+		listed := false
+		view.Walk(ctx, "r", func(oi storage.ObjectInfo) error {
+			if oi.Path() == np {
+				listed = true
+			}
+			return nil
+		})
+		if _, serr := view.Stat(ctx, np); (serr == nil) != listed {
+			c.Violation("walk-disagrees-with-stat-at-rest", "walk-vs-put-round",
+				fmt.Sprintf("after a walk and a put of %q that overlapped have both returned, stat exists=%v but walk lists=%v (case %d round %d)", np, serr == nil, listed, idx, round), nil)
+			break
+		}
+		c.Count("walk_vs_put_rounds", 1)
+	}
 	c.Eval(len(history))
 	c.Count("lin_ops", len(history))
 	c.Count("concurrent_walks", walks)
